@@ -91,7 +91,7 @@ def describe(path):
 def run(ctx):
     from harness.replay import handshake as hs
     consts = {"Versions": {1, 3, 4, 5}, "MaxLen": 5} if ctx.quick else {"Versions": {1, 2, 3, 4, 5, 6}, "MaxLen": 6}
-    consts.update(Fine=False, EarlySet=False)
+    consts.update(Fine=False, EarlySet=False, CloseKinds={"record_set", "no_set"})
     cfg = tlc.write_cfg(os.path.join(ctx.scratch, "hs.cfg"), constants=consts, invariants=INVARIANTS, deadlock=False)
     res, states = tlc.enumerate_states("Handshake", cfg, ctx.scratch, coverage=True, timeout=1500)
     ctx.add_tlc(res, "exhaustive %s" % (consts,))
@@ -105,7 +105,8 @@ def run(ctx):
     zero = [a for a in ACTIONS if cov.get(a, (0, 0))[1] == 0]
     if zero:
         raise tlc.MachineryError("actions never taken in the exhaustive model: %s" % zero)
-    wconsts = {"Versions": {1, 5}, "MaxLen": 4, "Fine": False, "EarlySet": False}   # reachable in a small model => reachable in the explored one
+    wconsts = {"Versions": {1, 5}, "MaxLen": 4, "Fine": False, "EarlySet": False,
+               "CloseKinds": {"record_set", "no_set"}}   # reachable in a small model => reachable in the explored one
     for w in WITNESSES:
         wcfg = tlc.write_cfg(os.path.join(ctx.scratch, w + ".cfg"), constants=wconsts, invariants=[w], deadlock=False)
         wres = tlc.check_model("Handshake", wcfg, ctx.scratch, timeout=600)
@@ -135,6 +136,32 @@ def run(ctx):
     if eres.invariant != "FactoryReturnsOnlyAfterReady":
         raise tlc.MachineryError("the early-set variant of the model does not violate FactoryReturnsOnlyAfterReady")
     ctx.note("race_witness", "EarlySet model violates FactoryReturnsOnlyAfterReady as required")
+
+    # ---- peer closes the socket before READY, with the close() contract of asyncio / eventlet / gevent / twisted
+    # (error_all_requests; connected_event.set() - last_error is NOT recorded).  TLC finds the statement violated on
+    # the model of that contract; the counterexample is executed on a connection with exactly that close().
+    # The real AsyncioConnection shows it over a socketpair: findings/C47_peer_close_during_handshake_reported_ready.py
+    cconsts = dict(wconsts, CloseKinds={"set_only"})
+    ccfg = tlc.write_cfg(os.path.join(ctx.scratch, "hs_close.cfg"), constants=cconsts,
+                         invariants=["FactoryReturnsOnlyAfterReady"], deadlock=False)
+    cres = tlc.check_model("Handshake", ccfg, ctx.scratch, timeout=600)
+    if cres.invariant == "FactoryReturnsOnlyAfterReady":
+        tr = [st for _, st in cres.trace()]
+        c0 = tr[0]["cfg"]
+        ccfg_py = {"ver": c0["ver"], "auth": str(c0["auth"]), "comp": str(c0["comp"]), "local": set(c0["local"])}
+        replies = [hs.to_msg(st["act"]["m"]) for st in tr[1:] if st["act"]["name"] == "Reply"]
+        run = hs.execute(ccfg_py, lambda i, o: replies[i] if i < len(replies) else None, probe=False)
+        ctx.evaluations += 1
+        if run["factory"] == "ready":
+            ctx.violation("the peer closes the socket before READY (reactor close() that does not record last_error: asyncio, "
+                          "eventlet, gevent, twisted): Connection.factory returns the closed connection as ready; replies %s"
+                          % ([m["k"] for m in replies],),
+                          replay={"cfg": dict(ccfg_py, local=sorted(ccfg_py["local"])), "replies": replies, "probe": False,
+                                  "expect_factory_error": True},
+                          signature="reactor-close:last-error-not-recorded:factory-returns-closed-connection")
+    else:
+        ctx.note("close_contract_set_only", "model of asyncio-style close() no longer violates the statement")
+    finding_violations = ctx.violations
 
     # ---- spec -> code: every maximal behaviour
     paths = behaviours(states, consts["MaxLen"])
@@ -172,12 +199,13 @@ def run(ctx):
     bad2[-1]["outcome"] = "conn_error"
     bad3 = [dict(s) for s in victim]
     bad3[-1]["sent"] = tuple(dict(f, seg=False) if f["op"] == "QUERY" else f for f in bad3[-1]["sent"])
-    clean = ctx.violations == 0          # with a diverging driver the untouched behaviours do not replay cleanly either
+    clean = ctx.violations == finding_violations          # with a diverging driver the untouched behaviours do not replay cleanly either
     if clean and (not (hs.replay(bad) and hs.replay(bad2) and hs.replay(bad3)) or hs.replay(victim) or hs.replay(v2)):
         raise tlc.MachineryError("binding self-test failed: corrupted expectation not detected by replay")
 
     # ---- code -> spec: recorded random handshakes validated by TLC
-    tconsts = {"Versions": {1, 2, 3, 4, 5, 6}, "MaxLen": 12, "Fine": False, "EarlySet": False}
+    tconsts = {"Versions": {1, 2, 3, 4, 5, 6}, "MaxLen": 12, "Fine": False, "EarlySet": False,
+               "CloseKinds": {"record_set", "no_set"}}
     n_tr = 400 if ctx.quick else 5000
     traces = [hs.record(ctx.rng, tconsts["Versions"], 10) for _ in range(n_tr)]
     good = len(traces)
@@ -249,6 +277,8 @@ def replay(ctx, obj):
     print("factory-side decision at the instant connected_event was set:", run.get("wakes"))
     if run["probe"]:
         print("after probe:", run["probe"])
+    if obj.get("expect_factory_error") and run["factory"] == "ready":
+        ctx.violation("replayed: factory still returns the connection although the handshake never completed", replay=obj)
     if obj.get("divergence"):
         print("expected (spec):", obj["divergence"]["diff"])
         d = obj["divergence"]["diff"]
